@@ -71,6 +71,10 @@ class Prop(common.PropertyCheck):
                    'chform': ['repeat', 'neg1', 'repeat3', 'list_neg', 'neg3'][i % 5], 'over': None, 'dt': ['I', 'F'][(i // 5) % 2], 'tinyneg': i % 7 == 0, 'nan': False,
                    'seed': rng.randrange(1 << 30)}
 
+        # converted channels whose lower range limit is negative (autofluorescence offset) while the events are not, or less so: W follows the events
+        for i in range(self.budget(12, 100)):
+            yield {'res': [1024, 4096, 256][i % 3], 'units': 'mef_offset', 'scale': 'logicle', 'n': [None, 17][i % 2], 'chform': ['name', 'list', 'all'][i % 3], 'over': None,
+                   'dt': ['I', 'F'][i % 2], 'tinyneg': False, 'nan': False, 'seed': rng.randrange(1 << 30)}
         # logicle bins generated right after bins for a W that differs in the fifth decimal only
         for i in range(self.budget(12, 100)):
             yield {'res': [1024, 4096, 262144][i % 3], 'units': ['raw', 'rfi'][i % 2], 'scale': 'logicle', 'n': [None, 17][i % 2], 'chform': ['name', 'list', 'all'][i % 3], 'over': 'Wnear',
@@ -96,8 +100,11 @@ class Prop(common.PropertyCheck):
         if case.get('tinyneg') and case.get('dt') == 'F':
             # negative events only slightly below zero (well inside the linear region the default W would give)
             d = FlowCal.transform.transform(d, None, lambda x: np.where(np.asarray(x) < 0, np.asarray(x) * 1e-5, np.asarray(x)))
-        if case['units'] in ('rfi', 'mef'):
+        if case['units'] in ('rfi', 'mef', 'mef_offset'):
             d = FlowCal.transform.to_rfi(d)
+        if case['units'] == 'mef_offset':
+            # a standard curve with an autofluorescence offset: the lower range limit of the converted channel is negative, below every event
+            d = FlowCal.transform.to_mef(d, [1], [lambda x: math.exp(2.0) * np.abs(x) ** 1.05 * np.sign(x) - 35.0], [1])
         if case['units'] == 'mef':
             d = FlowCal.transform.to_mef(d, [1], [(lambda x: np.sign(x) * math.exp(2.0) * np.abs(x) ** 1.05) if case['seed'] % 3 == 1 else
                                               (lambda x: 0.5 * np.sign(x) * np.abs(x) ** 1.5) if (case['seed'] % 3 == 2 or case['scale'] not in ('log', 'linear')) else
@@ -310,7 +317,13 @@ class Prop(common.PropertyCheck):
                 if not (e[0] < lo_eff and e[-1] > hi):
                     return 'log edges [%r, %r] do not cover [%r, %r]' % (e[0], e[-1], lo_eff, hi)
             else:
-                if not (e[0] <= min(lo, 0) and (case['over'] in ('T', 'Tsmall', 'TM') or e[-1] >= hi * (1 - 1e-9))):
+                if lo < 0 and case['units'] == 'mef_offset':
+                    # a range that begins below zero lies outside the quantified domain (ranges starting at 0 or 1): the lower end of a logicle grid follows
+                    # the most negative EVENT (documented rule for W), not the limit; only the upper end is judged
+                    self.exclude('logicle grid of a range that begins below zero: lower end not judged')
+                    if not (case['over'] in ('T', 'Tsmall', 'TM') or e[-1] >= hi * (1 - 1e-9)):
+                        return 'logicle edges [%r, %r] do not reach the upper range limit %r' % (e[0], e[-1], hi)
+                elif not (e[0] <= min(lo, 0) and (case['over'] in ('T', 'Tsmall', 'TM') or e[-1] >= hi * (1 - 1e-9))):
                     return 'logicle edges [%r, %r] do not cover the range %s' % (e[0], e[-1], [lo, hi])
             # value-centred bins with the default bin count
             if impl['nb'][i] is None and res <= 4096:
